@@ -28,6 +28,7 @@
                     inst_in_class (selects inside the ranges known at that point, ports of the instantiated definition
                     based at 0, no port declaration later in the body, the instantiated module not declared later).
      C06_full_assigns_document : the same for the assign clause (pin k of the assignment carries bit k of both sides).
+     C06_full_ports_document   : what header and port declarations joined (C06_full_ports) is in the final value.
      NOT proved - C06_full stays a Definition: (i) the connection clause when the instantiated module is declared LATER
      in the file (forward reference) or a port declaration follows the instance: a re-basing declaration
      ("input [7:4] a" after "module m(a)") legitimately moves labels, so this needs the statement in positions from the
@@ -40,7 +41,7 @@ From Coq Require Import String.
 From Coq Require Import List ZArith Bool Permutation Lia.
 From SV Require Import Base.Base Fmt.VBits Fmt.VExpr Fmt.VDoc Fmt.VTop Fmt.VElab Fmt.VSpec Fmt.VSem
   Proofs.VerilogLists Proofs.VerilogSlice Proofs.VerilogGrow Proofs.VerilogPort Proofs.VerilogAssign Proofs.VerilogTop
-  Proofs.VElabBase Proofs.VElabInv Proofs.VElabWf Proofs.VElabExpr Proofs.VElabConn Proofs.VElabAssign Proofs.VElabPorts Proofs.VElabNets Proofs.VElabTop Proofs.VElabStable Proofs.VElabVis Proofs.VElabFrame Proofs.VElabFrameX Proofs.VElabDoc Proofs.VElabRun Proofs.VElabRunX Proofs.VElabRunA.
+  Proofs.VElabBase Proofs.VElabInv Proofs.VElabWf Proofs.VElabExpr Proofs.VElabConn Proofs.VElabAssign Proofs.VElabPorts Proofs.VElabNets Proofs.VElabTop Proofs.VElabStable Proofs.VElabVis Proofs.VElabFrame Proofs.VElabFrameX Proofs.VElabDoc Proofs.VElabRun Proofs.VElabRunX Proofs.VElabRunA Proofs.VElabRunP.
 Import ListNotations.
 Local Close Scope string_scope.
 Open Scope Z_scope.
@@ -712,6 +713,41 @@ Proof.
   specialize (K H1).
   match type of K with ?A -> _ => assert (H2 : A) by (split; [reflexivity|exact Logic.I]) end. specialize (K H2).
   cbv zeta in K. destruct K as (d & Hd & Hin). exists d. split; [exact Hd|]. vm_compute in Hin. exact Hin.
+Qed.
+
+(* the ports clause on whole documents: what the header and the port declarations of a module have joined when the last
+   port declaration has been read (state s; for a plain header C06_full_ports says what: port bit k on bit k of the
+   cable of the same name) is in the value elab returns - no typing hypothesis *)
+Theorem C06_full_ports_document : forall pre m post before after sf,
+  run (pre ++ m :: post) = Ok sf -> vm_cell m = false ->
+  vm_body m = before ++ after -> Forall not_port_decl after ->
+  Forall (fun m2 => vm_name m2 <> vm_name m) post ->
+  exists s0 s5 cur s,
+    fold_res module_decl pre st_init = Ok s0 /\ module_open m s0 = Ok (s5, cur) /\ fold_res (body_item cur) before s5 = Ok s /\
+    Inv s /\ VInv s /\ ed_name (get_def cur s) = vm_name m /\
+    forall lb b r, In (EPort lb b) (net_of r (abs_def s (get_def cur s))) ->
+                   In (EPort lb b) (net_of r (abs_def sf (get_def cur sf))).
+Proof. exact module_port_nets. Qed.
+Print Assumptions C06_full_ports_document.
+
+Example C06_full_ports_document_witness :
+  match run ex_doc4 with
+  | Ok sf => In (EPort (LName (S "a")) 3) (net_of (S "a", 3) (abs_def sf (get_def 1 sf)))
+  | Err _ => False
+  end.
+Proof.
+  destruct (run ex_doc4) as [sf|er] eqn:E; [|vm_compute in E; discriminate].
+  destruct (C06_full_ports_document (firstn 1 ex_doc4) (nth 1 ex_doc4 {| vm_name := []; vm_cell := true; vm_params := []; vm_attrs := []; vm_header := []; vm_body := [] |})
+              (skipn 2 ex_doc4)
+              (firstn 3 (vm_body (nth 1 ex_doc4 {| vm_name := []; vm_cell := true; vm_params := []; vm_attrs := []; vm_header := []; vm_body := [] |})))
+              (skipn 3 (vm_body (nth 1 ex_doc4 {| vm_name := []; vm_cell := true; vm_params := []; vm_attrs := []; vm_header := []; vm_body := [] |})))
+              sf E eq_refl eq_refl) as (s0 & s5 & cur & s & E0 & E5 & Es & _ & _ & _ & K).
+  { repeat constructor. }
+  { constructor; [|constructor]. vm_compute. discriminate. }
+  vm_compute in E0. inversion E0; subst s0. clear E0.
+  vm_compute in E5. inversion E5; subst s5 cur. clear E5.
+  vm_compute in Es. inversion Es; subst s. clear Es.
+  apply K. vm_compute. left. reflexivity.
 Qed.
 
 (* ANSI headers: a direction, and the range given with it or after it, stays in force for the names that follow
